@@ -62,9 +62,10 @@ var xFn = ops(1, "", "() => $0", "(x) => [x, $0]", "() => { return $0 }", "funct
 
 var xLit = ops(40, "", "[$0, $1]", "[...$0]", "[, $0, ]", "[$0, , ]", "{x: $0}", "{[$0]: $1}", "{...$0}", "{x: $0, get y() { return $1 }}", "{x: $0}.x",
 	"{x() { return $0 }}.x()", "{__proto__: $0}", "{\"__proto__\": $0, x: $1}", "{['__proto__']: $0}", "{1: $0, 1.5: $1}", "{a, b: $0}",
-	"class { static x = $0 }.x", "new (class extends $0 {})", "class { static [$0]() {} }", "class { static [$0] = $1 }", "new (class { x = $0 }).x",
+	"class { static x = $0 }.x", "new (class extends $0 {})", "class { static [$0]() {} }", "class { static [$0] = $1 }", "new (class { x = $0 })().x",
 	"class { static #p = $0; static g() { return this.#p } }.g()", "class { static { H.log($0) } }", "function() {}", "class {}", "{}",
-	"class { static x = $0; static y = this.x }.y", "class { static async *[$0]() {} }", "class { static get [$0]() { return $1 } }")
+	"class { static x = $0; static y = this.x }.y", "class { static async *[$0]() {} }", "class { static get [$0]() { return $1 } }",
+	"new (class { static constructor() { return 5 } x = $0 })().x", "class { static constructor() { return $0 } static y = this.constructor() }.y")
 
 var xDestr = ops(2, "", "[#0] = $0", "{x: #0} = $0", "[#0 = $1] = $0", "{x: #0 = $1} = $0", "[...#0] = $0", "{...#0} = $0", "{x: [#0]} = $0", "[{x: #0}] = $0",
 	"{[$1]: #0} = $0", "[, #0] = $0")
